@@ -711,10 +711,19 @@ OrdInitsT == { <<"subu", "final", "id">>, <<"none", "allrev", "sq">> }
 SeqProbS(mode, v, c) ==
     [kind |-> "sseq", mode |-> mode, via |-> v, m |-> SeqMatS,
      th0 |-> IF mode = "order" THEN <<2, 1>> ELSE <<1, -1>>, th1 |-> IF mode = "order" THEN <<0, 1>> ELSE <<2, 1>>, th2 |-> <<0, 2>>,
-     go0 |-> c[1], to0 |-> c[2], omap |-> c[3]]
+     go0 |-> c[1], to0 |-> c[2], omap |-> c[3], xf |-> "id"]
 SeqProbT(mode, v, c) ==
     [kind |-> "tseq", mode |-> mode, via |-> v, m |-> SeqMatT, T |-> SeqT, method |-> "forward_euler",
-     th0 |-> <<1, -1>>, th1 |-> <<0, 2>>, th2 |-> <<2, 1>>, go0 |-> c[1], to0 |-> c[2], omap |-> c[3]]
+     th0 |-> <<1, -1>>, th1 |-> <<0, 2>>, th2 |-> <<2, 1>>, go0 |-> c[1], to0 |-> c[2], omap |-> c[3], xf |-> "id"]
+\* mode "grid" WHERE THE GRIDS LIE (field xf, see XfSet): the same objects and setter sequences (at most 3 calls) with every
+\* grid - grid_sol, grid_obs, the time levels, time_obs, at construction and in every setter call - under the change of variable xf.
+\* X0 / X1 (steady: they differ in ONE node by half a cell), off are then grids far from the origin / with tiny cells; the
+\* expected values do not depend on xf (SeqObserveAffine)
+SeqXfNames == IF Level < 2 THEN {"t10sm6", "t20sm10"} ELSE {"t10sm6", "t20sm10", "sm30"}
+\* (quick: one change of variable per initial object)
+SeqXfPick(c, x) == Level >= 2 \/ (x = "t20sm10") = (c[1] = "none")
+SeqXfProbs(v) == { [SeqProbS("grid", v, d[1]) EXCEPT !.xf = d[2]] : d \in {e \in SeqInitsS \X SeqXfNames : SeqXfPick(e[1], e[2])} }
+                 \cup { [SeqProbT("grid", v, d[1]) EXCEPT !.xf = d[2]] : d \in {e \in SeqInitsT \X SeqXfNames : SeqXfPick(e[1], e[2])} }
 \* ---- mode "solve": the forms, time grids and problems ------------------------------------------------------
 \* A(th, t) = A0 + t A1 + th[1] A2, f(th, t) = f0 + t f1 + Fth th, third component c0 + U0 th + (t - t_1) w.
 \* th[1] >= 0 for the parameters of the mode and the symmetric part of A is negative definite for t, th[1] >= 0, so
@@ -728,13 +737,14 @@ SolveMats ==
 \* ONE step, two, three (non-uniform); integer levels (the replayer may hand them over as an integer array)
 SolveGrids == [one |-> << Zero, Q(1, 2) >>, two |-> << Q(1, 2), One, Two >>, three |-> << Zero, Q(1, 4), Q(1, 2), Q(3, 2) >>,
                ione |-> << One, R(3) >>, itwo |-> << Zero, One, R(3) >>]
-SolveGridNames(v, n) == IF Level >= 2 THEN {"one", "two", "three", "ione", "itwo"}
+\* (through the model without "three": the exact sensitivities of three backward Euler steps exceed 32 bits)
+SolveGridNames(v, n) == IF Level >= 2 THEN (IF v = "pde" THEN {"one", "two", "three", "ione", "itwo"} ELSE {"one", "two", "ione", "itwo"})
                         ELSE IF v = "pde" THEN (IF n = 2 THEN {"one", "two", "three", "ione"} ELSE {"one", "two", "itwo"})
                         ELSE (IF n = 2 THEN {"one", "two"} ELSE {"one", "ione"})
 SolveProbs(v) ==
     UNION { { [kind |-> "tseq", mode |-> "solve", via |-> v, m |-> m, T |-> SolveGrids[g], tg |-> g, method |-> me,
                th0 |-> <<1, -1>>, th1 |-> <<0, 2>>, th2 |-> <<2, 1>>, go0 |-> "none", to0 |-> "final",
-               omap |-> IF m.n = 2 THEN "sq" ELSE "id"] : g \in SolveGridNames(v, m.n), me \in {"forward_euler", "backward_euler"} }
+               omap |-> IF m.n = 2 THEN "sq" ELSE "id", xf |-> "id"] : g \in SolveGridNames(v, m.n), me \in {"forward_euler", "backward_euler"} }
             : m \in SolveMats }
 
 SeqProblems ==
@@ -743,8 +753,9 @@ SeqProblems ==
             \cup { SeqProbS("ginp", v, c) : c \in GinpInitsS } \cup { SeqProbT("ginp", v, c) : c \in GinpInitsT }
             \cup { SeqProbS("order", v, c) : c \in OrdInitsS } \cup { SeqProbT("order", v, c) : c \in OrdInitsT }
             \cup (IF SolveDepth > 0 THEN SolveProbs(v) ELSE {})
+            \cup SeqXfProbs(v)
             : v \in {"pde", "model"} }
-DepthOf(p) == CASE p.mode = "grid" -> SeqDepth [] p.mode = "param" -> ParDepth [] p.mode = "ginp" -> GinpDepth [] p.mode = "order" -> OrdDepth
+DepthOf(p) == CASE p.mode = "grid" -> (IF p.xf = "id" \/ SeqDepth < 3 THEN SeqDepth ELSE 3) [] p.mode = "param" -> ParDepth [] p.mode = "ginp" -> GinpDepth [] p.mode = "order" -> OrdDepth
                 [] p.mode = "solve" -> (IF p.via = "pde" THEN SolveDepth ELSE SolveDepth - 2)
 
 \* ---- Solve ---------------------------------------------------------------
@@ -794,10 +805,9 @@ SvSensFrom(p, th, kk, lv, k, dl) ==
                                  QVAdd(dl[k], QVScale(dt, QVAdd(QMV(SvAk(p.m, kk), lv[k + 1]), fk)))))
          IN SvSensFrom(p, th, kk, lv, k + 1, Append(dl, d1))
 SvSens(p, th, kk) == SvSensFrom(p, th, kk, SvSolve(p, th, NoSys).lv, 1, << MCol(IM(p.m.U0), kk) >>)
-\* Jacobian of PDEModel.forward = map o (last level): column kk
-SvJac(p, th) ==
-    LET u == SvSolve(p, th, NoSys).lv[Len(p.T)]
-    IN F([kk \in 1..2 |-> ApplyMapD(p.omap, u, SvSens(p, th, kk)[Len(p.T)])])
+\* Jacobian of the last level: column kk (PDEModel.forward = map o last level; the derivative of the elementwise map is
+\* applied by the replayer - its products exceed 32 bits)
+SvJac(p, th) == F([kk \in 1..2 |-> SvSens(p, th, kk)[Len(p.T)]])
 
 SeqSolution(p, th) == IF p.kind = "sseq" THEN QSolve(AOf(p.m, th), FOf(p.m, th))
                       ELSE IF p.mode = "solve" THEN SvSolve(p, th, NoSys).lv
@@ -1061,7 +1071,7 @@ SvForward(th) ==
 SvGradient(th) ==
     /\ SeqCan /\ pb.mode = "solve" /\ pb.via = "model"
     /\ th \in {pb.th0, pb.th1} /\ LastIs({"forward"}) /\ CountOf({"gradient"}) < 2
-    /\ hist' = Append(hist, Entry("gradient", "", [th |-> th, jac |-> SvJac(pb, th)], <<>>, obj))
+    /\ hist' = Append(hist, Entry("gradient", "", [th |-> th, jac |-> SvJac(pb, th), u |-> SvSolve(pb, th, NoSys).lv[Len(pb.T)]], <<>>, obj))
     /\ UNCHANGED obj
     /\ SeqFrame
 
@@ -1094,12 +1104,20 @@ SeqSensCurrent ==
                            a  == IF pb.method = "forward_euler" THEN i ELSE i + 1
                        IN QVSub(d[i + 1], d[i]) = QVScale(dt, QVAdd(QVAdd(QMV(APar(pb.m, th, tl), d[a]), QMV(SvAk(pb.m, kk), u[a])),
                                                                   MCol(IM(pb.m.Fth), kk)))
-                 /\ hist[Len(hist)].val.jac[kk] = ApplyMapD(pb.omap, u[nt], d[nt])
+                 /\ hist[Len(hist)].val.jac[kk] = d[nt] /\ hist[Len(hist)].val.u = u[nt]
 \* every Observe / Forward returns the observation for the CURRENT grids and times (the grids handed over last; silent
 \* while an array handed over has been modified in place and not handed over again): entry i (row i, column j) is the value
 \* at the node grid_obs[i] (and the time time_obs[j]) - ObsNow looks every node / time up, whatever their order
 SeqObserveCurrent ==
     (IsSeq /\ LastIs(ObsActs) /\ (pb.mode = "ginp" => Stale(obj) = {})) => hist[Len(hist)].obs = ObsNow(pb, obj)
+\* WHERE the grids lie: the observation for the grids / times under the change of variable xf is the observation for the
+\* reference grids (for the changes of variable whose nodes fit 32-bit rationals; the interpolant commutes with it)
+SeqObserveAffine ==
+    (IsSeq /\ pb.xf # "id" /\ XfRep(XfSet[pb.xf]) /\ LastIs(ObsActs)) =>
+        LET xf == XfSet[pb.xf]
+            pX == IF pb.kind = "tseq" THEN [pb EXCEPT !.T = AffSeq(xf, pb.T)] ELSE pb
+            oX == [obj EXCEPT !.gs = AffSeq(xf, obj.gs), !.go = AffSeq(xf, obj.go), !.to = AffSeq(xf, obj.to)]
+        IN ObsNow(pX, oX) = hist[Len(hist)].obs
 \* mode "order": an observation in another order IS another observation - the nodal values of the current solution are
 \* pairwise different (time class: on the final level, and no two levels are equal)
 SeqOrderVisible ==
@@ -1155,7 +1173,7 @@ EmitSeq ==
         PrintT("@@CASE " \o ToJson(
             [kind |-> pb.kind, mode |-> pb.mode, via |-> pb.via, m |-> pb.m, T |-> IF pb.kind = "tseq" THEN pb.T ELSE <<>>,
              method |-> IF pb.kind = "tseq" THEN pb.method ELSE "", th0 |-> pb.th0, th1 |-> pb.th1, th2 |-> pb.th2,
-             go0 |-> pb.go0, to0 |-> pb.to0, omap |-> pb.omap, tg |-> IF pb.mode = "solve" THEN pb.tg ELSE "",
+             go0 |-> pb.go0, to0 |-> pb.to0, omap |-> pb.omap, xf |-> pb.xf, xfm |-> XfSet[pb.xf], tg |-> IF pb.mode = "solve" THEN pb.tg ELSE "",
              new |-> LET o == SeqNew(pb) IN [gs |-> o.gs, go |-> o.go, to |-> o.to, sol |-> o.sol, heap |-> o.heap],
              hist |-> hist]) \o " @@END")
 
